@@ -194,6 +194,10 @@ def c11_body(script: str) -> str:
         raise ProgError("boom")
     if script == "retry":
         raise RetryError("again")
+    if script == "pause":
+        from pynenc.workflow import WorkflowPauseError
+
+        raise WorkflowPauseError("pause requested")      # logged by the run handler: the thread ends, the invocation stays RUNNING
     return script
 
 
